@@ -496,13 +496,13 @@ def check_phase_sets(rep, rule, rule_pair=None, rule_order=None, rule_core_env=N
                 pv = phase_val(it.try_eval(e.args[0].value))
                 if pv is not None and pv[0] == 'sigs':
                     d = pv[2]
-                    return (Opaque(e, ('funcs', d['func'], id(d['node']))), Opaque(e, ('provs', PROVS_PHASE.get(d['prov']), id(d['node']))))
+                    return (Opaque(e, ('funcs', d['func'], d.get('key', id(d['node'])))), Opaque(e, ('provs', PROVS_PHASE.get(d['prov']), d.get('key', id(d['node'])))))
                 raise Unmodelled('zip(*%s): not a list of (function, provides) pairs of the middlewares' % norm(e.args[0].value))
             if cn in ('sorted', 'reversed', 'set', 'frozenset') and e.args:
                 pv = phase_val(it.try_eval(e.args[0]))
                 if pv is not None:
                     pv[2]['reordered'] = cn
-                    return Opaque(e, (pv[0], pv[1], id(pv[2]['node'])))
+                    return Opaque(e, (pv[0], pv[1], pv[2].get('key', id(pv[2]['node']))))
             if cn == 'make_chain':
                 a = [argn(e, n, i) for i, n in enumerate(('funcs', 'provides', 'final_func', 'preprovided', 'inner_name'))]
                 if None in a:
@@ -710,6 +710,7 @@ def check_phase_sets(rep, rule, rule_pair=None, rule_order=None, rule_core_env=N
                 raise Unmodelled('list %s built in the loop over the middlewares is not a phase list' % lname)
             d['node'] = st
             d['fake'] = fake
+            d['key'] = id(fake)      # (a list built by a loop is registered under its stand-in comprehension)
             comps[id(fake)] = d
             phase = d['func'] if d['func'] is not None else PROVS_PHASE.get(d['prov'])
             val_ = Opaque(fake, (d['kind'], phase, id(fake)))
